@@ -202,10 +202,19 @@ def bytes_slice(interp, b, sl):
     hi = smart_clamp(interp, sl.stop, n, n)
     ln = z3.simplify(ctx_if(interp.path, hi > lo, hi - lo, z3.IntVal(0)))
     at0 = b.at
-    if z3.is_int_value(lo) and lo.as_long() == 0:
-        r = SBytes(at0, ln)
+    # provenance: a slice of a slice of X is a slice of X (tag
+    # ('slice', X, offset)); adjacent slices are merged again by
+    # bytes_concat, so re-assembled stream windows stay plain windows
+    bt = getattr(b, 'tag', None)
+    if bt and bt[0] == 'slice':
+        root, off0 = bt[1], bt[2]
     else:
-        r = SBytes(lambda i: at0(lo + i), ln)
+        root, off0 = b, z3.IntVal(0)
+    off = z3.simplify(off0 + lo)
+    if z3.is_int_value(lo) and lo.as_long() == 0:
+        r = SBytes(at0, ln, tag=('slice', root, off))
+    else:
+        r = SBytes(lambda i: at0(lo + i), ln, tag=('slice', root, off))
     c = bytes_concrete(interp, r) if isinstance(r.length, int) and \
         r.length <= 64 else None
     return c if c is not None else r
@@ -223,6 +232,23 @@ def bytes_concat(interp, a, b):
         return a
     la = a.zlen()
     aat, bat = a.at, b.at
+    ta, tb = getattr(a, 'tag', None), getattr(b, 'tag', None)
+    if ta and tb and ta[0] == 'slice' and tb[0] == 'slice' \
+            and ta[1] is tb[1]:
+        # X[u:v] + X[v:w] == X[u:w]
+        try:
+            adjacent = interp.path.implied(ta[2] + la == tb[2])
+        except Exception:
+            adjacent = False
+        if adjacent:
+            root, off = ta[1], ta[2]
+            rat = root.at
+            if z3.is_int_value(off) and off.as_long() == 0:
+                return SBytes(rat, z3.simplify(la + b.zlen()),
+                              tag=('slice', root, off))
+            return SBytes(lambda i: rat(off + i),
+                          z3.simplify(la + b.zlen()),
+                          tag=('slice', root, off))
 
     def at(i):
         if isinstance(i, int):
@@ -244,6 +270,23 @@ def bytes_eq(interp, a, b):
     a = as_sbytes(a)
     b = as_sbytes(b)
     la, lb = a.length, b.length
+    ta, tb = getattr(a, 'tag', None), getattr(b, 'tag', None)
+    if ta and tb and ta[0] == 'slice' and tb[0] == 'slice' \
+            and ta[1] is tb[1] and not (isinstance(la, int)
+                                        and isinstance(lb, int)
+                                        and la <= 64):
+        # two windows of the same value: equal lengths and (empty, or the
+        # same offset, or - the general case - equal contents)
+        p = interp.path
+        k = z3.Int('k!%d' % next(p.fresh))
+        p.binder_depth += 1
+        try:
+            body = a.at(k) == b.at(k)
+        finally:
+            p.binder_depth -= 1
+        q = z3.ForAll([k], z3.Implies(z3.And(k >= 0, k < a.zlen()), body))
+        return mk_bool(z3.And(a.zlen() == b.zlen(),
+                              z3.Or(a.zlen() <= 0, ta[2] == tb[2], q)))
     if isinstance(la, int) and isinstance(lb, int):
         if la != lb:
             return False
@@ -870,15 +913,7 @@ def contains(interp, container, x):
                 return True
         return False
     if isinstance(container, dict):
-        if is_symbolic(x):
-            for y in container:
-                if interp.truth(py_eq(interp, x, y)):
-                    return True
-            return False
-        try:
-            return x in container
-        except TypeError:
-            interp.throw(TypeError, 'unhashable type')
+        return dict_find(interp, container, x) is not _MISSING
     if isinstance(container, (str, SStr, OpaqueStr)) or isinstance(
             x, (SStr, OpaqueStr)):
         from . import strings
@@ -991,25 +1026,10 @@ def getitem(interp, o, k):
         idx = z3.simplify(z3.If(ke < 0, n + ke, ke))
         return mk_int(b.at(idx))
     if isinstance(o, dict):
-        if is_symbolic(k):
-            for x in o:
-                if x is k:
-                    return o[x]
-            if not o:
-                interp.throw(KeyError, k)
-            if all(not is_symbolic(x) for x in o) and len(o) <= 64:
-                # finite case split over the concrete keys
-                for x in list(o):
-                    if interp.truth(py_eq(interp, k, x)):
-                        return o[x]
-                interp.throw(KeyError, k)
-            raise Unsupported('dict lookup with symbolic key')
-        try:
-            if k in o:
-                return o[k]
-        except TypeError:
-            interp.throw(TypeError, 'unhashable type')
-        interp.throw(KeyError, k)
+        x = dict_find(interp, o, k)
+        if x is _MISSING:
+            interp.throw(KeyError, k)
+        return o[x]
     if isinstance(o, (list, tuple, str, range)):
         if isinstance(k, slice):
             if any(is_symbolic(x) for x in (k.start, k.stop, k.step)):
@@ -1045,22 +1065,48 @@ def getitem(interp, o, k):
     raise Unsupported('subscript of %r' % (o,))
 
 
-def _sym_key_ok(interp, o, k):
-    """A dict may hold ONE symbolic key, by identity, and nothing else:
-    with a single key no aliasing question can arise."""
-    others = [x for x in o if x is not k]
-    if others:
-        raise Unsupported('dict with a symbolic key next to other keys')
-    interp.trusted.add('dict with a single symbolic key (by identity)')
+_MISSING = object()
+
+
+def _keyable(k):
+    return isinstance(k, (str, SStr, int, SInt, SBool, bytes, type(None),
+                          tuple, float))
+
+
+def dict_find(interp, o, k):
+    """The key object of dict o that equals k, or _MISSING.
+
+    Symbolic keys (z3 strings / integers) are stored by identity in the host
+    dict.  Invariant: on every path the keys of a dict are pairwise distinct
+    values - a key is only added after this function found it different from
+    every key present (forking on each undecided comparison), so a lookup
+    that finds one equal key has found the only one."""
+    symk = is_symbolic(k)
+    if not symk:
+        try:
+            if k in o:
+                return k
+        except TypeError:
+            interp.throw(TypeError, 'unhashable type')
+        if not any(is_symbolic(x) for x in o):
+            return _MISSING
+    if symk and not _keyable(k):
+        raise Unsupported('dict key %r' % (k,))
+    if len(o) > 64:
+        raise Unsupported('symbolic key against a large dict')
+    for x in list(o):
+        if x is k:
+            return x
+        if symk or is_symbolic(x):
+            if interp.truth(py_eq(interp, k, x)):
+                return x
+    return _MISSING
 
 
 def setitem(interp, o, k, v):
     if isinstance(o, dict):
-        if is_symbolic(k):
-            _sym_key_ok(interp, o, k)
-        elif any(is_symbolic(x) for x in o):
-            raise Unsupported('dict with a symbolic key next to other keys')
-        o[k] = v
+        x = dict_find(interp, o, k)
+        o[k if x is _MISSING else x] = v
         return
     if isinstance(o, list):
         if is_symbolic(k):
